@@ -103,7 +103,9 @@ SigopsTx ==
     225 :> TS(<<In(222, 3), In(222, 4)>>, <<O(19, 99900000, 1, 1), [amt |-> Zero, addr |-> 19905, st |-> 7]>>, 79620) @@   \* 380 + 79620
     226 :> TS(<<In(222, 3), In(222, 5)>>, <<O(14, 99800000, 1, 1), [amt |-> Zero, addr |-> 19905, st |-> 7]>>, 79620) @@   \* 381 + 79620
     228 :> TS(<<In(222, 3), In(222, 6)>>, <<O(12, 99900000, 1, 1), [amt |-> Zero, addr |-> 19905, st |-> 7]>>, 79620) @@   \* P2SH-wrapped witness script: 380 + 79620
-    229 :> TS(<<In(222, 3), In(222, 7)>>, <<O(11, 99900000, 1, 1), [amt |-> Zero, addr |-> 19905, st |-> 7]>>, 79620)      \* 381 + 79620
+    229 :> TS(<<In(222, 3), In(222, 7)>>, <<O(11, 99900000, 1, 1), [amt |-> Zero, addr |-> 19905, st |-> 7]>>, 79620) @@   \* 381 + 79620
+    231 :> T(<<In(18, 1)>>, <<O(49, 99900000, 1, 1)>>) @@        \* valid; the drivers' TrustedTxChecker vouches for it (odd id, all inputs fine)
+    230 :> T(<<InBad(19, 1)>>, <<O(49, 99900000, 2, 1)>>)        \* wrong script: must be refused although a vouched-for transaction precedes it
 SigopsBlk ==
      1 :> B(0, <<222>>, 50, FEE) @@
      2 :> B(1, <<223>>, 50, FEE) @@
@@ -113,8 +115,9 @@ SigopsBlk ==
      6 :> B(0, <<222, 224>>, 50, 2 * FEE) @@
      7 :> B(0, <<222, 223>>, 50, 2 * FEE) @@
      8 :> B(1, <<228>>, 50, FEE) @@
-     9 :> B(1, <<229>>, 50, FEE)
-SigopsBlocks == 1..9
+     9 :> B(1, <<229>>, 50, FEE) @@
+    10 :> B(0, <<231, 230>>, 50, 2 * FEE)
+SigopsBlocks == 1..10
 
 ----------------------------------------------------------------------------
 (* C06 family A: A1-A2-A3 against B1-B2-B3-B4 where B3 is invalid only when connected,   *)
@@ -244,6 +247,12 @@ ForkDBlk ==
      8 :> B(3, <<415>>, 50, FEE) @@            \* D2'' : valid
      9 :> B(8, <<>>, 50, 0)                    \* D3''
 ForkDBlocks == 1..9
+(* C06 family E: the first five blocks of family D, explored deeper (7 deliveries with Idle calls): the invalid  *)
+(* side block D2 is flushed, fails when its child triggers the reorganisation, is flagged invalid on disk - and  *)
+(* is then delivered AGAIN, followed by its child again: it must fail again.                                     *)
+ForkETx == ForkDTx
+ForkEBlk == [b \in 1..5 |-> ForkDBlk[b]]
+ForkEBlocks == 1..5
 (* C06 family Retarget (BaseH = 2014, base blocks 150 s apart): the first retarget happens at height 2016.      *)
 (* On branch A the period was fast, so A2016 carries 4 units of work; branch B stamps B2015 two weeks later,     *)
 (* its period was slow and its blocks stay at the minimum difficulty.  A (2 blocks, work 5) must beat            *)
